@@ -35,7 +35,9 @@ MonInit == [bad |-> <<>>, wit |-> {},
             hooked |-> {},       \* n whose hook has started
             heldI |-> {},        \* n whose hook intercepted the flow and has not returned
             released |-> {},     \* n whose hook has returned
-            mustfw |-> {},       \* n released while the flow was not killed: owed to the destination exactly once
+            mustfw |-> {},       \* n owed to the destination exactly once: released while the flow was not killed, or
+                                 \* held by a flow that was resumed (and not killed since) before the event loop ran
+            resumed |-> {},      \* n held by an intercepted flow that has been resumed; the event loop has not run yet
             fw |-> {},           \* n whose body has been written to its destination
             cur |-> {},          \* <<n, id>>: current content of n
             icpt |-> {},         \* flows that are intercepted now
@@ -54,10 +56,11 @@ BodyCount(ev, n) == Cardinality({i \in DOMAIN ev.bd : Base(ev.bd[i]) = n})
 
 OnWrite(m, ev) ==
   LET ns == Carried(m, ev) IN
-  IF \E n \in ns : n \in m.heldI THEN <<"C11.sent_while_held", m.proto>>
+  IF \E n \in ns : n \in m.heldI \/ FlowOf(m, n) \in m.icpt THEN <<"C11.sent_while_held", m.proto>>
   ELSE IF \E n \in ns : FlowOf(m, n) \in m.killed
     THEN LET n == CHOOSE x \in ns : FlowOf(m, x) \in m.killed
-         IN <<"C11.sent_after_kill", m.proto, IF n \in m.killedHeld THEN "held_message" ELSE "later_message">>
+         IN <<"C11.sent_after_kill", m.proto, IF n \in m.killedHeld THEN "held_message" ELSE "later_message",
+              IF ev.to = "s" THEN "to_server" ELSE "to_client">>
   ELSE IF \E n \in ns : BodyCount(ev, n) > 1 \/ (BodyCount(ev, n) = 1 /\ n \in m.fw)
     THEN <<"C11.forwarded_twice", m.proto>>
   ELSE IF \E n \in ns : \E i \in DOMAIN (ev.hd \o ev.bd) :
@@ -67,7 +70,7 @@ OnWrite(m, ev) ==
 
 \* evaluated in the state before an environment event: what the proxy could do synchronously has been done
 Check(m) ==
-  IF ~(m.mustfw \subseteq m.fw) THEN <<"C11.not_forwarded_after_release", m.proto>>
+  IF ~(m.mustfw \subseteq m.fw) THEN <<"C11.released_or_resumed_but_not_forwarded", m.proto>>
   ELSE IF Multiplexed(m.proto)
           /\ \E t \in m.arrived : /\ t[1] \notin m.hooked /\ t[2] \notin m.killed /\ t[2] \notin m.icpt
                                   /\ ~\E n \in Pending(m) : FlowOf(m, n) = t[2]
@@ -95,6 +98,7 @@ MonStep(m, ev) ==
   CASE ev.k = "cfg" -> [m1 EXCEPT !.proto = ev.proto]
     [] ev.k = "arrive" ->
          [m1 EXCEPT !.arrived = @ \cup {<<ev.n, ev.f, ev.to>>}, !.cur = @ \cup {<<ev.n, ev.n>>},
+                    !.mustfw = @ \cup m.resumed, !.resumed = {},      \* delivering a message runs the event loop too
                     !.wit = @ \cup W(m.icpt # {} /\ ev.f \notin m.icpt, T(m, "sibling_arrives_while_other_held"))
                               \cup W(ev.f \in m.icpt, T(m, "arrives_while_own_flow_held"))
                               \cup W(ev.f \in m.killed, T(m, "arrives_after_kill"))]
@@ -114,10 +118,13 @@ MonStep(m, ev) ==
                     !.wit = @ \cup W(ev.n \in m.heldI, T(m, "held_then_released"))
                               \cup W(ev.n \in m.heldI /\ ev.f \in m.killed, T(m, "released_after_kill"))]
     [] ev.k = "resume" -> [m1 EXCEPT !.icpt = @ \ {ev.f},
+                                     !.resumed = IF ev.f \in m.icpt THEN @ \cup {n \in m.heldI : FlowOf(m, n) = ev.f} ELSE @,
                                      !.wit = @ \cup W(ev.f \in m.killed, T(m, "resume_after_kill"))]
+    [] ev.k = "run" -> [m1 EXCEPT !.mustfw = @ \cup m.resumed, !.resumed = {}]
     [] ev.k = "kill" ->
          IF ~ev.ok THEN [m1 EXCEPT !.wit = @ \cup {T(m, "kill_refused")}]
          ELSE [m1 EXCEPT !.killed = @ \cup {ev.f}, !.icpt = @ \ {ev.f},
+                         !.resumed = {n \in @ : FlowOf(m, n) # ev.f},
                          !.killedHeld = @ \cup {n \in Pending(m) : FlowOf(m, n) = ev.f},
                          !.wit = @ \cup W(ev.f \in m.icpt, T(m, "killed_while_held"))
                                    \cup W(\E n \in Pending(m) : FlowOf(m, n) = ev.f /\ ev.f \notin m.icpt,
